@@ -26,8 +26,10 @@
 EXTENDS Durations, FiniteSets
 
 CONSTANTS Xsd,          \* "10" | "11"
-          GridName,     \* "small" | "full"
-          MaxOps        \* 1: one operation per grid value, 2: chains of two
+          GridName,     \* "tiny" | "small" | "full"
+          MaxOps,       \* 1: one operation per grid value, 2: chains of two
+          LawOps,       \* the full set of laws is evaluated on values with ops <= LawOps
+          ImplicitTZ    \* the implicit timezone of the dynamic context, minutes (0 = UTC)
 
 VARIABLES val,      \* the value
           ops       \* number of operations applied since the literal was constructed: a literal of the
@@ -35,7 +37,6 @@ VARIABLES val,      \* the value
 vars == <<val, ops>>
 
 NoTZ == 9999
-ImplicitTZ == 0
 Min(a, b) == IF a < b THEN a ELSE b
 
 ---------------------------------------------------------------------------
@@ -108,15 +109,20 @@ DurOf(v)    == [k |-> v.k, neg |-> v.neg, m |-> v.m, d |-> v.d, s |-> v.s, us |-
 (* grids (negative numbers cannot be written in a cfg file) *)
 FullYears  == {-400001, -10001, -10000, -9999, -821, -820, -401, -400, -101, -100, -5, -4, -2, -1, 0,
                1, 2, 4, 100, 400, 1582, 1999, 2000, 9999, 10000, 10001, 400000}
-SmallYears == {-400001, -10000, -820, -401, -5, -4, -1, 0, 1, 4, 1999, 2000, 9999, 10000, 400000}
-Years == IF GridName = "small" THEN SmallYears ELSE FullYears
-MonthDays == {<<1, 1>>, <<1, 31>>, <<2, 28>>, <<2, 29>>, <<3, 1>>, <<12, 31>>}
+SmallYears == {-400001, -10000, -820, -401, -5, -1, 0, 1, 2000, 9999, 10000, 400000}
+TinyYears  == {-820, -1, 1, 2000, 10000}
+Years == IF GridName = "tiny" THEN TinyYears ELSE IF GridName = "small" THEN SmallYears ELSE FullYears
+FullMonthDays == {<<1, 1>>, <<1, 31>>, <<2, 28>>, <<2, 29>>, <<3, 1>>, <<12, 31>>}
+TinyMonthDays == {<<1, 1>>, <<2, 29>>, <<12, 31>>}
+MonthDays == IF GridName = "tiny" THEN TinyMonthDays ELSE FullMonthDays
 FullTimes  == {<<0, 0, 0, 0>>, <<12, 30, 15, 0>>, <<23, 59, 59, 999999>>, <<24, 0, 0, 0>>, <<6, 7, 8, 50000>>}
-SmallTimes == {<<0, 0, 0, 0>>, <<12, 30, 15, 0>>, <<23, 59, 59, 999999>>, <<24, 0, 0, 0>>, <<6, 7, 8, 50000>>}
-Times == IF GridName = "small" THEN SmallTimes ELSE FullTimes
+SmallTimes == {<<0, 0, 0, 0>>, <<12, 30, 15, 50000>>, <<23, 59, 59, 999999>>, <<24, 0, 0, 0>>}
+TinyTimes  == {<<0, 0, 0, 0>>, <<23, 59, 59, 999999>>}
+Times == IF GridName = "tiny" THEN TinyTimes ELSE IF GridName = "small" THEN SmallTimes ELSE FullTimes
 FullTZs  == {NoTZ, 0, 840, -840, 330}
-SmallTZs == {NoTZ, 0, 840, -840, 330}
-TZs == IF GridName = "small" THEN SmallTZs ELSE FullTZs
+SmallTZs == {NoTZ, 0, -840, 330}
+TinyTZs  == {NoTZ, -840}
+TZs == IF GridName = "tiny" THEN TinyTZs ELSE IF GridName = "small" THEN SmallTZs ELSE FullTZs
 
 Raw(k, y, md, t, tz) ==
   [st |-> "raw", k |-> k, y |-> y, mo |-> md[1], d |-> md[2], h |-> t[1], mi |-> t[2], s |-> t[3], us |-> t[4], tz |-> tz]
@@ -203,6 +209,9 @@ Compare(i) == /\ Step /\ More /\ IsVal(val) /\ OnGrid /\ IsVal(OtherOf(val.k, i)
               /\ val' = [st |-> "cmp", r |-> CompareV(val, OtherOf(val.k, i))]
 AdjustTZ(tz) == /\ Step /\ More /\ IsVal(val) /\ OnGrid
                 /\ val' = AdjustV(val, tz)
+(* fn:adjust-*-to-timezone($v): the one-argument form adjusts to the implicit timezone *)
+AdjustImpl == /\ Step /\ More /\ IsVal(val) /\ OnGrid
+              /\ val' = AdjustV(val, ImplicitTZ)
 Components == /\ Step /\ More /\ IsVal(val)
               /\ val' = ComponentsV(val)
 (* duration states *)
@@ -229,6 +238,7 @@ Next == \/ Construct
         \/ \E i \in 1..NOthers : Diff(i)
         \/ \E i \in 1..NOthers : Compare(i)
         \/ \E tz \in FullTZs : AdjustTZ(tz)
+        \/ AdjustImpl
         \/ Components
         \/ \E k \in Kinds, i \in 1..NOthers : AddTo(k, i)
         \/ \E n \in Multipliers : MulBy(n)
@@ -239,10 +249,9 @@ Next == \/ Construct
 Spec == Init /\ [][Next]_vars
 
 ---------------------------------------------------------------------------
-(* The laws quoted by the property, on EVERY value v that is reached.  They are stated as an
-   action property over the target of every transition (LawsHold) because TLC memoises LET and
-   operator arguments only while it evaluates actions; as a state invariant the same formulas cost
-   100x more. *)
+(* The laws quoted by the property.  Every reached value must be well formed and survive
+   value -> timeline offset -> value; the laws that quantify over the operand grids (about 300
+   calendar conversions per value) are evaluated on the values with ops <= LawOps. *)
 WellFormed(v) ==
   /\ v.h \in 0..23 /\ v.mi \in 0..59 /\ v.s \in 0..59 /\ v.us \in 0..999999
   /\ (v.tz = NoTZ \/ ValidTZ(v.tz))
@@ -324,7 +333,10 @@ LawConstruct(r, v) ==
      /\ (v = Err) <=> (~ValidLexYear(Xsd, r.y) \/ r.d > DaysInMonth(Astro(Xsd, r.y), r.mo))
      /\ (IsVal(v) /\ r.h = 24) => Local(v) = <<DaysFromCivil(Astro(Xsd, r.y), r.mo, r.d) + 1, 0, 0>>
      /\ (IsVal(v) /\ r.h < 24) => <<v.y, v.mo, v.d, v.h, v.mi, v.s, v.us, v.tz>> = <<r.y, r.mo, r.d, r.h, r.mi, r.s, r.us, r.tz>>
-LawsNext == LawsOf(val') /\ LawConstruct(val, val')
-LawsHold == [][LawsNext]_vars                  \* PROPERTY
-Progressed == ops \in 0..MaxOps                \* INVARIANT (type)
+Laws ==                                          \* INVARIANT
+  /\ ops \in 0..MaxOps
+  /\ IsVal(val) => (WellFormed(val) /\ LawRoundTrip(val))
+  /\ IsDur(val) => WellFormedDur(DurOf(val))
+  /\ (ops <= LawOps) => LawsOf(val)
+LawsHold == [][LawConstruct(val, val')]_vars     \* PROPERTY
 =============================================================================
